@@ -68,6 +68,7 @@ structure INode where
 structure Creator where
   coll : List INode := []
   last : Option Bool := none     -- last style: none / some true = italics on / some false = off
+  hidden : Nat := 0              -- `_unwritten_mid_row_cells`: cells before the cursor taken by mid-row codes, in no text
   deriving DecidableEq, Repr
 
 def Creator.isEmpty (c : Creator) : Bool := !c.coll.any (fun n => !n.text.isEmpty)
@@ -85,6 +86,7 @@ def appendToLast (coll : List INode) (chars : Str) : List INode :=
     `8080` is two empty strings) creates no node -/
 def addChars (c : Creator) (t : Tracker) (chars : Str) : Creator × Tracker :=
   if chars.isEmpty then (c, t) else
+  let c := { c with hidden := 0 }
   let cur := t.cur
   let coll := c.coll
   let coll := match coll.getLast? with
@@ -108,6 +110,7 @@ def modifyText (coll : List INode) (i : Nat) (f : Str → Str) : List INode :=
     nothing has been displayed yet (pending break / repositioning, or a break / repositioning node after the last
     non-empty text node) nothing is deleted -/
 def backspace (c : Creator) (t : Tracker) (w : String) : Creator :=
+  if w == "94a1" && c.hidden != 0 then { c with hidden := c.hidden - 1 } else
   match prevTextIdx c.coll with
   | none => c
   | some i =>
@@ -137,7 +140,7 @@ def interpret (c : Creator) (t : Tracker) (cmd : String) (nxt : Option String) :
       let t := if c.isEmpty then t.reset else t
       if isOff && hasBreakBefore c.coll then t else t.update p
     | none => t
-  let c := if cmd == "94a1" then backspace c t "94a1" else c
+  let c := if cmd == "94a1" then backspace c t "94a1" else if isMidRow cmd then c else { c with hidden := 0 }
   -- background colour codes delete a preceding space
   let (c, err1) : Creator × Bool :=
     if isBackground cmd then
@@ -157,19 +160,20 @@ def interpret (c : Creator) (t : Tracker) (cmd : String) (nxt : Option String) :
       if isItalics cmd then
         if c.last == none || c.last == some false then
           let (coll, t) := if t.brk then (c.coll ++ [⟨.brk, [], cur⟩], { t with brk := false }) else (c.coll, t)
-          ({ coll := coll ++ [⟨.ion, [], cur⟩], last := some true }, t)
+          ({ c with coll := coll ++ [⟨.ion, [], cur⟩], last := some true }, t)
         else (c, t)
       else
         if c.last == some true then
           let coll := c.coll ++ [⟨.ioff, [], cur⟩]
           let (coll, t) := if t.brk then (coll ++ [⟨.brk, [], cur⟩], { t with brk := false }) else (coll, t)
-          ({ coll := coll, last := some false }, t)
+          ({ c with coll := coll, last := some false }, t)
         else (c, t)
     else (c, t)
   -- mid-row spacing
   let nextP := match nxt with | some n => punctuationHi.contains (n.take 2).toString | none => false
+  let elided : Creator := if isMidRow cmd && (tabOffset cmd).isNone then { c with hidden := c.hidden + 1 } else c
   match prevTextIdx c.coll with
-  | none => (c, t, err1)
+  | none => (elided, t, err1)
   | some i =>
     let prevBreak := (c.coll.drop i).any (fun n => n.kind == .brk)
     let lastIsSpace := match c.coll[i]? with
@@ -180,7 +184,7 @@ def interpret (c : Creator) (t : Tracker) (cmd : String) (nxt : Option String) :
         let (c, t) := addChars c t [' ']
         (c, t, err1)
       else ({ c with coll := modifyText c.coll i (fun s => s ++ [' ']) }, t, err1)
-    else (c, t, err1)
+    else (elided, t, err1)
 
 /-! ### italics passes (`_format_italics`) -/
 
